@@ -418,6 +418,10 @@ fn corpus(o: &mut Out, seeds: (u64, u64)) {
     plan_case(o, &PlanIn { total: MAX_MONEY, nc: 2, cap: 64, buffer: 0, fee: MAX_MONEY, os: OSpec::Const(Some(u64::MAX)) }, seeds);
     plan_case(o, &PlanIn { total: MAX_MONEY, nc: 2, cap: 64, buffer: 0, fee: 2, os: OSpec::Const(Some(1 << 63)) }, seeds);
     plan_case(o, &PlanIn { total: MAX_MONEY, nc: 2, cap: 64, buffer: 0, fee: 3, os: OSpec::Const(Some(6148914691236517206)) }, seeds);
+    // exact-funding note whose direct use the oracle prices beyond u64: refused, nothing migrates
+    plan_case(o, &PlanIn { total: 100_015_000, nc: 1, cap: 50, buffer: ZIP317_BUFFER, fee: PREP_FEE, os: OSpec::Const(Some(1 << 62)) }, seeds);
+    plan_case(o, &PlanIn { total: 100_015_000, nc: 1, cap: 50, buffer: ZIP317_BUFFER, fee: PREP_FEE, os: OSpec::Const(Some(0)) }, seeds);
+    plan_case(o, &PlanIn { total: 100_015_000, nc: 1, cap: 50, buffer: ZIP317_BUFFER, fee: PREP_FEE, os: OSpec::Stub }, seeds);
     // the ZIP's worked examples and the crate's golden vectors
     for t in [54_000_000_000u64, 12_345_000_000, 2_500_000_000_000, 374_861_740_000, 711_010_000, 1_520_000, 100_015_000] {
         for nc in [1usize, 2] {
